@@ -26,7 +26,7 @@ import (
 )
 
 func init() {
-	verifChecks["C10"] = func(t *testing.T, rep *mc.Reporter) { runC10(rep) }
+	verifChecks["C10"] = func(t *testing.T, rep *mc.Reporter) { c10T = t; runC10(rep) }
 }
 
 // bstr is a byte string that survives JSON (Go-quoted inside a JSON string).
@@ -61,7 +61,10 @@ type c10Cfg struct {
 	SlotFilterSet bool   `json:"slot_filter_section,omitempty"` // slotFilter section present although both lists are empty
 	Cluster       bool   `json:"cluster_output,omitempty"`
 	Via           string `json:"via,omitempty"` // NewRedisOutput | yaml:<style> | flags
-	toolView      interface{}
+	// the replay's database mapping (nil / empty = identity); the blacklist names SOURCE databases
+	TargetDb    *int        `json:"target_db,omitempty"`
+	TargetDbMap map[int]int `json:"target_db_map,omitempty"`
+	toolView    interface{}
 }
 
 func bs2s(in []bstr) []string {
@@ -943,6 +946,9 @@ func c10Commands(pool []string) []c10Command {
 
 // ---------------------------------------------------------------------------
 // driver
+
+// c10T: the test handle, needed by the family that runs the snapshot replay in a bubble.
+var c10T *testing.T
 
 func runC10(rep *mc.Reporter) {
 	shard, nshards := mc.ShardOf()
